@@ -4,7 +4,7 @@
   detection do, a point of the file is gone (key removed from the index, or inside a
   tombstone of its key) exactly when a delete addressed to the file covers it.
 -/
-import Influx.Lemmas.CompactTrace
+import Influx.Lemmas.CompactSnap
 
 namespace Influx.Model.Compact
 open Influx.Spec.C04
@@ -406,5 +406,859 @@ theorem keyRange_spec {B : List (Key × List (Pts Int))} (ok : BOK B) (rf : RFil
       have h2 := chain_le_last bs hch b1 hl z hz b hbm p hp
       simp only [ptsFirst, ha, ptsLast, hz, Option.map_some, Option.getD_some]
       exact ⟨h1, h2⟩
+
+
+/-! ### the index of a reader under `deleteRange` -/
+
+/-- the new state of key `k` when the log entry `e` is applied -/
+def updK (rf : RFile) (e : Key × Int × Int) (k : Key) (st : Option (List (Int × Int))) : Option (List (Int × Int)) :=
+  if k = e.1 then
+    match rf.keyRange k with
+    | some (kmin, kmax) => indexDelete rf.fmin rf.fmax kmin kmax e.2.1 e.2.2 st
+    | none => st
+  else st
+
+theorem applyEntry_eq (rf : RFile) (ix : IndexSt) (e : Key × Int × Int) :
+    rf.applyEntry ix e = ix.map fun x => (x.1, updK rf e x.1 x.2) := by
+  unfold RFile.applyEntry
+  apply List.map_congr_left
+  rintro ⟨k, cur⟩ _
+  simp only [updK]
+  by_cases hk : k = e.1
+  · simp only [hk, if_true]
+    cases rf.keyRange e.1 with
+    | none => rfl
+    | some r => obtain ⟨a, b⟩ := r; rfl
+  · simp [hk]
+
+theorem updK_spec {B : List (Key × List (Pts Int))} (ok : BOK B) (rf : RFile) (hb : rf.blocks = B)
+    (log : List (Key × Int × Int)) (e : Key × Int × Int) (he : e ∈ log) (k : Key) (st : Option (List (Int × Int)))
+    (hs : SoundK (timesOf B k) log k st) :
+    SoundK (timesOf B k) log k (updK rf e k st) ∧
+    (∀ t, goneAt st t = true → goneAt (updK rf e k st) t = true) ∧
+    (st = none → updK rf e k st = none) ∧
+    (k = e.1 → ∀ t ∈ timesOf B k, e.2.1 ≤ t → t ≤ e.2.2 → goneAt (updK rf e k st) t = true) := by
+  unfold updK
+  by_cases hk : k = e.1
+  · rw [if_pos hk]
+    have hkr := keyRange_spec ok rf hb k
+    cases hr : rf.keyRange k with
+    | none =>
+      rw [hr] at hkr
+      simp only at hkr ⊢
+      refine ⟨hs, fun _ h => h, fun h => h, ?_⟩
+      intro _ t ht
+      rw [hkr] at ht; simp at ht
+    | some r =>
+      obtain ⟨kmin, kmax⟩ := r
+      rw [hr] at hkr
+      simp only at hkr ⊢
+      have hin : ∀ t ∈ timesOf B k, InR t := by
+        intro t ht
+        obtain ⟨b, hbm, p, hp, rfl⟩ := mem_timesOf.mp ht
+        exact chain_times_inR (ok.chain k) b hbm p hp
+      have hlog : (k, e.2.1, e.2.2) ∈ log := by rw [hk]; exact he
+      obtain ⟨s1, s2, s3⟩ := indexDelete_spec (timesOf B k) log k rf.fmin rf.fmax kmin kmax e.2.1 e.2.2 st hin
+        (fun t ht => file_range ok rf hb ht) hkr hlog hs
+      refine ⟨s1, s2, ?_, fun _ => s3⟩
+      intro hn; subst hn; rfl
+  · rw [if_neg hk]
+    exact ⟨hs, fun _ h => h, fun h => h, fun h => absurd h hk⟩
+
+theorem foldl_applyEntry_spec {B : List (Key × List (Pts Int))} (ok : BOK B) (rf : RFile) (hb : rf.blocks = B)
+    (log : List (Key × Int × Int)) : ∀ (L : List (Key × Int × Int)) (ix0 : IndexSt),
+    (∀ e ∈ L, e ∈ log) → (∀ k st, (k, st) ∈ ix0 → SoundK (timesOf B k) log k st) →
+    (L.foldl rf.applyEntry ix0).map (·.1) = ix0.map (·.1) ∧
+    (∀ k st', (k, st') ∈ L.foldl rf.applyEntry ix0 → SoundK (timesOf B k) log k st') ∧
+    (∀ k st', (k, st') ∈ L.foldl rf.applyEntry ix0 → ∃ st, (k, st) ∈ ix0 ∧
+      (∀ t, goneAt st t = true → goneAt st' t = true) ∧ (st = none → st' = none)) ∧
+    (∀ k st', (k, st') ∈ L.foldl rf.applyEntry ix0 → CompleteK (timesOf B k) L k st')
+  | [], ix0, _, hs => by
+    refine ⟨rfl, hs, ?_, ?_⟩
+    · intro k st' h; exact ⟨st', h, fun _ h => h, fun h => h⟩
+    · intro k st' _ e he; simp at he
+  | e :: L, ix0, hL, hs => by
+    simp only [List.foldl_cons]
+    have he : e ∈ log := hL e (by simp)
+    -- one step
+    have hmem1 : ∀ k st1, (k, st1) ∈ rf.applyEntry ix0 e → ∃ st, (k, st) ∈ ix0 ∧ st1 = updK rf e k st := by
+      intro k st1 h
+      rw [applyEntry_eq] at h
+      simp only [List.mem_map, Prod.mk.injEq] at h
+      obtain ⟨x, hx, rfl, rfl⟩ := h
+      exact ⟨x.2, hx, rfl⟩
+    have hs1 : ∀ k st1, (k, st1) ∈ rf.applyEntry ix0 e → SoundK (timesOf B k) log k st1 := by
+      intro k st1 h
+      obtain ⟨st, hst, rfl⟩ := hmem1 k st1 h
+      exact (updK_spec ok rf hb log e he k st (hs k st hst)).1
+    obtain ⟨i1, i2, i3, i4⟩ := foldl_applyEntry_spec ok rf hb log L (rf.applyEntry ix0 e)
+      (fun x hx => hL x (List.mem_cons_of_mem _ hx)) hs1
+    refine ⟨?_, i2, ?_, ?_⟩
+    · rw [i1, applyEntry_eq]; simp [List.map_map]
+    · intro k st' h
+      obtain ⟨st1, h1, m1, n1⟩ := i3 k st' h
+      obtain ⟨st, hst, rfl⟩ := hmem1 k st1 h1
+      obtain ⟨_, u2, u3, _⟩ := updK_spec ok rf hb log e he k st (hs k st hst)
+      exact ⟨st, hst, fun t ht => m1 t (u2 t ht), fun hn => n1 (u3 hn)⟩
+    · intro k st' h x hx hxk t ht h1 h2
+      obtain ⟨st1, hm1, m1, _⟩ := i3 k st' h
+      rcases List.mem_cons.mp hx with rfl | hx2
+      · obtain ⟨st, hst, rfl⟩ := hmem1 k st1 hm1
+        obtain ⟨_, _, _, u4⟩ := updK_spec ok rf hb log x he k st (hs k st hst)
+        exact m1 t (u4 hxk.symm t ht h1 h2)
+      · exact i4 k st' h x hx2 hxk t ht h1 h2
+
+abbrev DelCall := List Key × Int × Int
+
+/-- the reader after the delete calls `done` -/
+structure RInv (B : List (Key × List (Pts Int))) (rf : RFile) (done : List DelCall) : Prop where
+  blocks : rf.blocks = B
+  keys : rf.index.map (·.1) = B.map (·.1)
+  sound : ∀ k st, (k, st) ∈ rf.index → SoundK (timesOf B k) rf.log k st
+  complete : ∀ k st, (k, st) ∈ rf.index → CompleteK (timesOf B k) rf.log k st
+  logFrom : ∀ e ∈ rf.log, ∃ d ∈ done, e.1 ∈ d.1 ∧ e.2 = d.2
+  eff : ∀ d ∈ done, ∀ k ∈ d.1, ∀ st, (k, st) ∈ rf.index → ∀ t ∈ timesOf B k, d.2.1 ≤ t → t ≤ d.2.2 →
+    st = none ∨ (k, d.2.1, d.2.2) ∈ rf.log
+
+theorem rinv_init {B : List (Key × List (Pts Int))} : RInv B (mkRFile B) [] := by
+  refine ⟨rfl, by simp [mkRFile, List.map_map], ?_, ?_, by simp [mkRFile], by simp⟩
+  · intro k st h
+    simp only [mkRFile, List.mem_map, Prod.mk.injEq] at h
+    obtain ⟨x, _, _, rfl⟩ := h
+    simp [SoundK]
+  · intro k st _ e he; simp [mkRFile] at he
+
+theorem keysAsc_pairwise : ∀ (l : List Key), keysAsc l = true → l.Pairwise (fun a b => keyLt a b = true)
+  | [], _ => List.Pairwise.nil
+  | [_], _ => List.pairwise_singleton _ _
+  | a :: b :: rest, h => by
+    simp only [keysAsc, Bool.and_eq_true] at h
+    have ih := keysAsc_pairwise (b :: rest) h.2
+    have hp := List.pairwise_cons.mp ih
+    refine List.pairwise_cons.mpr ⟨?_, ih⟩
+    intro x hx
+    rcases List.mem_cons.mp hx with rfl | hx2
+    · exact h.1
+    · exact keyLt_trans h.1 (hp.1 x hx2)
+
+theorem pairwise_head_le {α : Type} {R : α → α → Prop} {l : List α} (hp : l.Pairwise R) {h x : α}
+    (hh : l.head? = some h) (hx : x ∈ l) : x = h ∨ R h x := by
+  cases l with
+  | nil => simp at hh
+  | cons y ys =>
+    simp at hh; subst hh
+    rcases List.mem_cons.mp hx with rfl | h2
+    · exact Or.inl rfl
+    · exact Or.inr ((List.pairwise_cons.mp hp).1 x h2)
+
+theorem pairwise_le_last {α : Type} {R : α → α → Prop} {l : List α} (hp : l.Pairwise R) {z x : α}
+    (hz : l.getLast? = some z) (hx : x ∈ l) : x = z ∨ R x z := by
+  obtain ⟨ys, rfl⟩ := List.getLast?_eq_some_iff.mp hz
+  rcases List.mem_append.mp hx with h1 | h1
+  · exact Or.inr ((List.pairwise_append.mp hp).2.2 x h1 z (by simp))
+  · simp at h1; exact Or.inl h1
+
+/-- the part of `deleteRange` that logs the call and applies the whole log again -/
+theorem deleteRange_main {B : List (Key × List (Pts Int))} (ok : BOK B) (rf : RFile) (done : List DelCall)
+    (inv : RInv B rf done) (keys : List Key) (lo hi : Int) (present : List Key)
+    (hpres : ∀ k, k ∈ present ↔ (k ∈ keys ∧ ∃ tombs, (k, some tombs) ∈ rf.index)) :
+    RInv B { rf with log := rf.log ++ present.map (fun k => (k, lo, hi)),
+                     index := (rf.log ++ present.map (fun k => (k, lo, hi))).foldl rf.applyEntry rf.index }
+      (done ++ [(keys, lo, hi)]) := by
+  generalize hlog' : rf.log ++ present.map (fun k => (k, lo, hi)) = log'
+  have hsub : ∀ e ∈ rf.log, e ∈ log' := fun e he => by rw [← hlog']; exact List.mem_append_left _ he
+  have hs0 : ∀ k st, (k, st) ∈ rf.index → SoundK (timesOf B k) log' k st := by
+    intro k st h
+    have := inv.sound k st h
+    cases st with
+    | none =>
+      intro t ht
+      obtain ⟨e, he, he'⟩ := this t ht
+      exact ⟨e, hsub e he, he'⟩
+    | some tombs => exact fun r hr => hsub _ (this r hr)
+  obtain ⟨f1, f2, f3, f4⟩ := foldl_applyEntry_spec ok rf inv.blocks log' log' rf.index (fun _ h => h) hs0
+  refine ⟨inv.blocks, by show (List.foldl rf.applyEntry rf.index log').map (·.1) = _; rw [f1]; exact inv.keys, f2, f4, ?_, ?_⟩
+  · intro e he
+    show ∃ d ∈ done ++ [(keys, lo, hi)], e.1 ∈ d.1 ∧ e.2 = d.2
+    have he' : e ∈ log' := he
+    rw [← hlog'] at he'
+    rcases List.mem_append.mp he' with h | h
+    · obtain ⟨d, hd, hd'⟩ := inv.logFrom e h
+      exact ⟨d, List.mem_append_left _ hd, hd'⟩
+    · simp only [List.mem_map] at h
+      obtain ⟨k, hk, rfl⟩ := h
+      exact ⟨(keys, lo, hi), by simp, ((hpres k).mp hk).1, rfl⟩
+  · intro d hd k hk st' hst' t ht h1 h2
+    show st' = none ∨ (k, d.2.1, d.2.2) ∈ log'
+    obtain ⟨st, hst, _, hn⟩ := f3 k st' hst'
+    rcases List.mem_append.mp hd with h | h
+    · rcases inv.eff d h k hk st hst t ht h1 h2 with h3 | h3
+      · exact Or.inl (hn h3)
+      · exact Or.inr (hsub _ h3)
+    · simp at h; subst h
+      cases st with
+      | none => exact Or.inl (hn rfl)
+      | some tombs =>
+        right
+        rw [← hlog']
+        apply List.mem_append_right
+        simp only [List.mem_map]
+        exact ⟨k, (hpres k).mpr ⟨hk, tombs, hst⟩, rfl⟩
+
+/-- one `TSMReader.DeleteRange` call -/
+theorem deleteRange_inv {B : List (Key × List (Pts Int))} (ok : BOK B) (rf : RFile) (done : List DelCall)
+    (inv : RInv B rf done) (keys : List Key) (lo hi : Int) (hkeys : keysAsc keys = true) :
+    RInv B (rf.deleteRange keys lo hi) (done ++ [(keys, lo, hi)]) := by
+  -- the call leaves the reader alone: then it covers no point of the file
+  have unchanged : (∀ k ∈ keys, ∀ st, (k, st) ∈ rf.index → ∀ t ∈ timesOf B k, lo ≤ t → t ≤ hi → False) →
+      RInv B rf (done ++ [(keys, lo, hi)]) := by
+    intro hno
+    refine ⟨inv.blocks, inv.keys, inv.sound, inv.complete, ?_, ?_⟩
+    · intro e he
+      obtain ⟨d, hd, hd'⟩ := inv.logFrom e he
+      exact ⟨d, List.mem_append_left _ hd, hd'⟩
+    · intro d hd k hk st hst t ht h1 h2
+      rcases List.mem_append.mp hd with h | h
+      · exact inv.eff d h k hk st hst t ht h1 h2
+      · simp at h; subst h
+        exact absurd (hno k hk st hst t ht h1 h2) id
+  unfold RFile.deleteRange
+  cases hk0 : keys.head? with
+  | none =>
+    simp only
+    apply unchanged
+    intro k hk
+    have : keys = [] := List.head?_eq_none_iff.mp hk0
+    rw [this] at hk; simp at hk
+  | some k0 =>
+  have hkne : keys ≠ [] := by intro h; rw [h] at hk0; simp at hk0
+  obtain ⟨k1, hk1⟩ : ∃ k1, keys.getLast? = some k1 := ⟨_, List.getLast?_eq_some_getLast hkne⟩
+  simp only [hk1]
+  cases hb0 : rf.blocks.head? with
+  | none =>
+    simp only
+    apply unchanged
+    intro k _ st hst
+    have hB : B = [] := by rw [← inv.blocks]; exact List.head?_eq_none_iff.mp hb0
+    have := inv.keys
+    rw [hB] at this
+    simp only [List.map_nil, List.map_eq_nil_iff] at this
+    rw [this] at hst; simp at hst
+  | some fb0 =>
+  have hBne : rf.blocks ≠ [] := by intro h; rw [h] at hb0; simp at hb0
+  obtain ⟨fb1, hb1⟩ : ∃ fb1, rf.blocks.getLast? = some fb1 := ⟨_, List.getLast?_eq_some_getLast hBne⟩
+  obtain ⟨fk0, fbs0⟩ := fb0
+  obtain ⟨fk1, fbs1⟩ := fb1
+  simp only [hb1]
+  have hb0' : B.head? = some (fk0, fbs0) := by rw [← inv.blocks]; exact hb0
+  have hb1' : B.getLast? = some (fk1, fbs1) := by rw [← inv.blocks]; exact hb1
+  have hkp := keysAsc_pairwise keys hkeys
+  -- a key of the call that is in the index lies within both key ranges
+  have hinB : ∀ k st, (k, st) ∈ rf.index → ∃ e ∈ B, e.1 = k := by
+    intro k st hst
+    have : k ∈ rf.index.map (·.1) := List.mem_map.mpr ⟨(k, st), hst, rfl⟩
+    rw [inv.keys] at this
+    obtain ⟨e, he, hek⟩ := List.mem_map.mp this
+    exact ⟨e, he, hek⟩
+  by_cases hkr : (!(keyLe fk0 k1 && keyLe k0 fk1)) = true
+  · rw [if_pos hkr]
+    apply unchanged
+    intro k hk st hst t _ _ _
+    obtain ⟨e, he, hek⟩ := hinB k st hst
+    have h1 : k = k0 ∨ keyLt k0 k = true := pairwise_head_le hkp hk0 hk
+    have h2 : k = k1 ∨ keyLt k k1 = true := pairwise_le_last hkp hk1 hk
+    have h3 : e = (fk0, fbs0) ∨ keyLt fk0 e.1 = true := pairwise_head_le ok.asc hb0' he
+    have h4 : e = (fk1, fbs1) ∨ keyLt e.1 fk1 = true := pairwise_le_last ok.asc hb1' he
+    have hle1 : keyLt k1 fk0 = false := by
+      cases hx : keyLt k1 fk0 with
+      | false => rfl
+      | true =>
+        exfalso
+        have a1 : keyLt k fk0 = true := by
+          rcases h2 with rfl | h2
+          · exact hx
+          · exact keyLt_trans h2 hx
+        rcases h3 with rfl | h3
+        · simp only at hek; rw [hek, keyLt_irrefl] at a1; cases a1
+        · rw [hek] at h3; have := keyLt_asymm h3; rw [a1] at this; cases this
+    have hle2 : keyLt fk1 k0 = false := by
+      cases hx : keyLt fk1 k0 with
+      | false => rfl
+      | true =>
+        exfalso
+        have a1 : keyLt fk1 k = true := by
+          rcases h1 with rfl | h1
+          · exact hx
+          · exact keyLt_trans hx h1
+        rcases h4 with rfl | h4
+        · simp only at hek; rw [hek, keyLt_irrefl] at a1; cases a1
+        · rw [hek] at h4; have := keyLt_asymm h4; rw [a1] at this; cases this
+    simp [keyLe, hle1, hle2] at hkr
+  · rw [if_neg hkr]
+    by_cases htr : (!(decide (rf.fmin ≤ hi) && decide (rf.fmax ≥ lo))) = true
+    · rw [if_pos htr]
+      apply unchanged
+      intro k _ st _ t ht h1 h2
+      have := file_range ok rf inv.blocks ht
+      simp only [Bool.not_eq_true', Bool.and_eq_false_iff, decide_eq_false_iff_not] at htr
+      rcases htr with h | h <;> omega
+    · rw [if_neg htr]
+      apply deleteRange_main ok rf done inv keys lo hi
+      intro k
+      simp only [List.mem_filter, List.any_eq_true, Bool.and_eq_true, beq_iff_eq]
+      constructor
+      · rintro ⟨hk, ⟨k', cur⟩, hm, hkk, hs⟩
+        simp only [decide_eq_true_eq] at hkk hs
+        subst hkk
+        cases cur with
+        | none => simp at hs
+        | some tombs => exact ⟨hk, tombs, hm⟩
+      · rintro ⟨hk, tombs, hm⟩
+        exact ⟨hk, (k, some tombs), hm, by simp, rfl⟩
+
+
+/-! ### the readers of a case -/
+
+/-- the delete calls addressed to file `f`, in op order -/
+def delsOf (f : Nat) (ops : List Op) : List DelCall :=
+  ops.filterMap fun op => match op with
+    | Op.del f' keys lo hi => if f' = f then some (keys, lo, hi) else none
+    | _ => none
+
+/-- the reader of file `f` after all deletes of the case -/
+def readerOf (f : Nat) (ops : List Op) : RFile :=
+  (delsOf f ops).foldl (fun rf d => rf.deleteRange d.1 d.2.1 d.2.2) (mkRFile (fileBlocksL f ops))
+
+theorem readers_eq (ops : List Op) : readers ops = (fileIds ops).map fun f => readerOf f ops := by
+  unfold readers
+  apply List.map_congr_left
+  intro f _
+  unfold readerOf
+  generalize mkRFile (fileBlocksL f ops) = rf0
+  unfold delsOf
+  generalize ops = l
+  induction l generalizing rf0 with
+  | nil => rfl
+  | cons op l ih =>
+    simp only [List.foldl_cons, List.filterMap_cons]
+    cases op with
+    | del f' keys lo hi =>
+      by_cases hf : f' = f
+      · simp only [hf, if_true, List.foldl_cons]; exact ih _
+      · simp only [hf, if_false]; exact ih _
+    | _ => exact ih _
+
+theorem valid_del_facts : ∀ (ops pre : List Op), ValidFrom pre ops → ∀ f keys lo hi, Op.del f keys lo hi ∈ ops →
+    keysAsc keys = true
+  | [], _, _, _, _, _, _, h => by simp at h
+  | op :: rest, pre, hv, f, keys, lo, hi, h => by
+    rcases List.mem_cons.mp h with rfl | h2
+    · have := hv.1
+      simp only [delOK, Bool.and_eq_true] at this
+      exact this.2
+    · exact valid_del_facts rest _ hv.2 f keys lo hi h2
+
+theorem bok_file (ops : List Op) (hv : ValidFrom [] ops) (f : Nat) : BOK (fileBlocksL f ops) := by
+  obtain ⟨s1, s2, s3⟩ := foldBlocks_spec f ops [] List.Pairwise.nil (by simp)
+  rw [← fileBlocksL_eq] at s1 s2 s3
+  refine ⟨s1, s2, ?_⟩
+  intro k
+  rw [s3 k]
+  simp only [getK, List.filter_nil, List.flatMap_nil, List.nil_append]
+  have := valid_chain f k ops [] hv trivial
+  simpa using this
+
+theorem getK_file (ops : List Op) (f : Nat) (k : Key) : getK (fileBlocksL f ops) k = ptsOf f k ops := by
+  have := (foldBlocks_spec f ops [] List.Pairwise.nil (by simp)).2.2 k
+  rw [← fileBlocksL_eq] at this
+  simpa [getK] using this
+
+theorem rinv_reader (ops : List Op) (hv : ValidFrom [] ops) (f : Nat) :
+    RInv (fileBlocksL f ops) (readerOf f ops) (delsOf f ops) := by
+  have hok := bok_file ops hv f
+  have hk : ∀ d ∈ delsOf f ops, keysAsc d.1 = true := by
+    intro d hd
+    simp only [delsOf, List.mem_filterMap] at hd
+    obtain ⟨op, hop, h⟩ := hd
+    cases op with
+    | del f' keys lo hi =>
+      by_cases hf : f' = f
+      · simp only [hf, if_true, Option.some.injEq] at h
+        subst h
+        exact valid_del_facts ops [] hv f' keys lo hi hop
+      · simp [hf] at h
+    | _ => simp at h
+  unfold readerOf
+  generalize delsOf f ops = ds at hk
+  -- fold from the left, accumulating the processed calls
+  have : ∀ (ds done : List DelCall) (rf : RFile), RInv (fileBlocksL f ops) rf done →
+      (∀ d ∈ ds, keysAsc d.1 = true) →
+      RInv (fileBlocksL f ops) (ds.foldl (fun rf d => rf.deleteRange d.1 d.2.1 d.2.2) rf) (done ++ ds) := by
+    intro ds
+    induction ds with
+    | nil => intro done rf h _; simpa using h
+    | cons d ds ih =>
+      intro done rf h hks
+      simp only [List.foldl_cons]
+      have h1 := deleteRange_inv hok rf done h d.1 d.2.1 d.2.2 (hks d (by simp))
+      have := ih (done ++ [d]) _ h1 (fun x hx => hks x (List.mem_cons_of_mem _ hx))
+      simpa using this
+  simpa using this ds [] _ rinv_init hk
+
+/-- **the delete model is faithful**: a point of file `f` is gone in the reader exactly when
+    the statement's `deleted` says so -/
+theorem delAgree (ops : List Op) (hv : ValidFrom [] ops) (f : Nat) (k : Key) (st : Option (List (Int × Int)))
+    (hst : (k, st) ∈ (readerOf f ops).index) (t : Int) (ht : t ∈ timesOf (fileBlocksL f ops) k) :
+    goneAt st t = deleted ops f k t := by
+  have inv := rinv_reader ops hv f
+  have hdel : deleted ops f k t = true ↔ ∃ d ∈ delsOf f ops, k ∈ d.1 ∧ d.2.1 ≤ t ∧ t ≤ d.2.2 := by
+    simp only [deleted, List.any_eq_true, delsOf, List.mem_filterMap]
+    constructor
+    · rintro ⟨op, hop, h⟩
+      cases op with
+      | del f' keys lo hi =>
+        simp only [Bool.and_eq_true, beq_iff_eq, List.contains_iff_mem, decide_eq_true_eq] at h
+        obtain ⟨⟨⟨rfl, h2⟩, h3⟩, h4⟩ := h
+        exact ⟨(keys, lo, hi), ⟨_, hop, by simp⟩, h2, h3, h4⟩
+      | _ => simp at h
+    · rintro ⟨d, ⟨op, hop, h⟩, h2, h3, h4⟩
+      cases op with
+      | del f' keys lo hi =>
+        by_cases hf : f' = f
+        · simp only [hf, if_true, Option.some.injEq] at h
+          subst h
+          refine ⟨_, hop, ?_⟩
+          simp only [Bool.and_eq_true, beq_iff_eq, List.contains_iff_mem, decide_eq_true_eq]
+          exact ⟨⟨⟨hf, h2⟩, h3⟩, h4⟩
+        · simp [hf] at h
+      | _ => simp at h
+  cases hg : goneAt st t with
+  | true =>
+    symm
+    rw [hdel]
+    have hs := inv.sound k st hst
+    cases st with
+    | none =>
+      obtain ⟨e, he, hek, h1, h2⟩ := hs t ht
+      obtain ⟨d, hd, hd1, hd2⟩ := inv.logFrom e he
+      exact ⟨d, hd, by rw [← hek]; exact hd1, by rw [← hd2]; exact h1, by rw [← hd2]; exact h2⟩
+    | some tombs =>
+      simp only [goneAt] at hg
+      obtain ⟨r, hr, h1, h2⟩ := inTombs_iff.mp hg
+      obtain ⟨d, hd, hd1, hd2⟩ := inv.logFrom _ (hs r hr)
+      simp only at hd1 hd2
+      exact ⟨d, hd, hd1, by rw [← hd2]; exact h1, by rw [← hd2]; exact h2⟩
+  | false =>
+    symm
+    cases hd : deleted ops f k t with
+    | false => rfl
+    | true =>
+      exfalso
+      obtain ⟨d, hdm, h1, h2, h3⟩ := hdel.mp hd
+      rcases inv.eff d hdm k h1 st hst t ht h2 h3 with h4 | h4
+      · rw [h4] at hg; simp [goneAt] at hg
+      · have := inv.complete k st hst _ h4 rfl t ht h2 h3
+        rw [hg] at this; cases this
+
+
+/-! ### what the compaction reads from a reader with tombstones -/
+
+/-- the block the iterator sees for a run of points of a key with tombstones `tombs` -/
+def mkBT (tombs : List (Int × Int)) (b : Pts Int) : Block Int :=
+  { minTime := ptsFirst b, maxTime := ptsLast b, pts := b, tombstones := tombs }
+
+/-- the index state of key `k` -/
+def lookupSt (rf : RFile) (k : Key) : Option (Option (List (Int × Int))) :=
+  (rf.index.find? (fun e => decide (e.1 = k))).map (·.2)
+
+/-- the blocks of key `k` the reader presents -/
+def readerBlocks (rf : RFile) (k : Key) : List (Block Int) :=
+  (rf.runs.filter (fun r => decide (r.1 = k))).flatMap (·.2)
+
+theorem readerBlocks_spec (rf : RFile) (k : Key) :
+    readerBlocks rf k = match lookupSt rf k with
+      | some (some tombs) => (getK rf.blocks k).map (mkBT tombs)
+      | _ => [] := by
+  unfold readerBlocks RFile.runs getK
+  generalize rf.blocks = B
+  induction B with
+  | nil => cases lookupSt rf k with
+    | none => rfl
+    | some st => cases st <;> rfl
+  | cons kb rest ih =>
+    obtain ⟨k', bs⟩ := kb
+    by_cases hk : k' = k
+    · subst hk
+      simp only [List.filterMap_cons, List.filter_cons, decide_true, if_true, List.flatMap_cons]
+      have hl : lookupSt rf k' = (rf.index.find? (fun e => decide (e.1 = k'))).map (·.2) := rfl
+      cases hf : rf.index.find? (fun e => decide (e.1 = k')) with
+      | none =>
+        rw [hf] at hl
+        simp only [Option.map_none] at hl
+        rw [hl] at ih ⊢
+        simpa using ih
+      | some e =>
+        obtain ⟨ke, st⟩ := e
+        rw [hf] at hl
+        simp only [Option.map_some] at hl
+        rw [hl] at ih ⊢
+        cases st with
+        | none => simpa using ih
+        | some tombs =>
+          simp only [List.filter_cons, decide_true, if_true, List.flatMap_cons, List.map_append] at ih ⊢
+          rw [ih]
+          rfl
+    · simp only [List.filter_cons, hk, decide_false, Bool.false_eq_true, if_false]
+      rw [← ih]
+      simp only [List.filterMap_cons]
+      cases rf.index.find? (fun e => decide (e.1 = k')) with
+      | none => rfl
+      | some e =>
+        obtain ⟨ke, st⟩ := e
+        cases st with
+        | none => rfl
+        | some tombs => simp [List.filter_cons, hk]
+
+theorem blocksFor_readers (ops : List Op) (k : Key) :
+    blocksFor (runsOf' ops) k = (fileIds ops).flatMap fun f => readerBlocks (readerOf f ops) k := by
+  unfold runsOf' blocksFor
+  rw [readers_eq, List.map_map, List.flatMap_map]
+  rfl
+
+theorem lookupSt_mem {rf : RFile} {k : Key} {st : Option (List (Int × Int))} (h : lookupSt rf k = some st) :
+    (k, st) ∈ rf.index := by
+  unfold lookupSt at h
+  cases hf : rf.index.find? (fun e => decide (e.1 = k)) with
+  | none => rw [hf] at h; simp at h
+  | some e =>
+    rw [hf] at h
+    simp only [Option.map_some, Option.some.injEq] at h
+    have hm := List.mem_of_find?_eq_some hf
+    have hk : e.1 = k := by simpa using List.find?_some hf
+    obtain ⟨ke, se⟩ := e
+    simp only at h hk
+    subst h; subst hk
+    exact hm
+
+theorem lookupSt_of_key {rf : RFile} {k : Key} (h : k ∈ rf.index.map (·.1)) : ∃ st, lookupSt rf k = some st := by
+  unfold lookupSt
+  cases hf : rf.index.find? (fun e => decide (e.1 = k)) with
+  | some e => exact ⟨e.2, rfl⟩
+  | none =>
+    obtain ⟨e, he, hek⟩ := List.mem_map.mp h
+    have := List.find?_eq_none.mp hf e he
+    simp [hek] at this
+
+theorem live_mkBT (tombs : List (Int × Int)) {b : Pts Int} (h : ∀ p ∈ b, InR p.1) :
+    live (mkBT tombs b) = applyTombs tombs b := by
+  unfold live unread mkBT
+  simp only
+  congr 1
+  apply List.filter_eq_self.mpr
+  intro p hp
+  have := h p hp
+  unfold InR at this
+  simp only [Bool.not_eq_true', Bool.and_eq_false_iff, decide_eq_false_iff_not]
+  left; omega
+
+theorem restAt_mkBT (tombs : List (Int × Int)) : ∀ (L : List (Pts Int)), ChainOK L → ∀ t,
+    restAt (L.map (mkBT tombs)) t = if inTombs tombs t then none else lastAt L t
+  | [], _, t => by simp [restAt, lastAt]
+  | b :: L, hc, t => by
+    simp only [List.map_cons, restAt, lastAt, restAt_mkBT tombs L hc.2.2.2.2 t, live_mkBT tombs hc.2.2.1,
+      lookup_applyTombs]
+    cases inTombs tombs t <;> simp
+
+theorem fresh_mkBT (tombs : List (Int × Int)) {b : Pts Int} (hne : b ≠ []) (hasc : Asc b) (hin : ∀ p ∈ b, InR p.1) :
+    Fresh (mkBT tombs b) := by
+  obtain ⟨a, z, ha, hz⟩ := head_getLast_of_ne hne
+  refine ⟨⟨hasc, ⟨a, ha, ?_⟩, ⟨z, hz, ?_⟩, hin⟩, rfl, rfl⟩
+  · simp [mkBT, ptsFirst, ha]
+  · simp [mkBT, ptsLast, hz]
+
+/-- the value file `f` contributes at (k, t) -/
+def fileHit (ops : List Op) (k : Key) (t : Int) (f : Nat) : Option Int :=
+  match lookupSt (readerOf f ops) k with
+  | some (some tombs) => if inTombs tombs t then none else lastAt (ptsOf f k ops) t
+  | _ => none
+
+theorem restAt_readerBlocks (ops : List Op) (hv : ValidFrom [] ops) (k : Key) (t : Int) (f : Nat) :
+    restAt (readerBlocks (readerOf f ops) k) t = fileHit ops k t f := by
+  have inv := rinv_reader ops hv f
+  rw [readerBlocks_spec, inv.blocks, getK_file]
+  unfold fileHit
+  cases lookupSt (readerOf f ops) k with
+  | none => rfl
+  | some st =>
+    cases st with
+    | none => rfl
+    | some tombs =>
+      simp only
+      apply restAt_mkBT
+      have := valid_chain f k ops [] hv trivial
+      simpa using this
+
+theorem restAt_flatMap_readers (ops : List Op) (hv : ValidFrom [] ops) (k : Key) (t : Int) : ∀ (ids : List Nat),
+    restAt (ids.flatMap fun f => readerBlocks (readerOf f ops) k) t = lastHit (fileHit ops k t) ids
+  | [] => rfl
+  | f :: fs => by
+    simp only [List.flatMap_cons, restAt_append, lastHit, restAt_flatMap_readers ops hv k t fs,
+      restAt_readerBlocks ops hv k t f]
+
+theorem mem_candidates {ops : List Op} {k : Key} {t : Int} {f : Nat} {v : Int} :
+    (f, v) ∈ candidates ops k t ↔ ∃ pts, Op.blk f k pts ∈ ops ∧ (t, v) ∈ pts ∧ deleted ops f k t = false := by
+  simp only [candidates, List.mem_flatMap]
+  constructor
+  · rintro ⟨op, hop, hm⟩
+    cases op with
+    | blk f' k' pts =>
+      by_cases hk : k' = k
+      · subst hk
+        by_cases hd : deleted ops f' k' t = true
+        · simp [hd] at hm
+        · have hd' : deleted ops f' k' t = false := by simpa using hd
+          simp only [beq_self_eq_true, hd', Bool.not_false, Bool.and_self, if_true, List.mem_map, List.mem_filter,
+            beq_iff_eq] at hm
+          obtain ⟨p, ⟨hp, hpt⟩, hpe⟩ := hm
+          simp only [Prod.mk.injEq] at hpe
+          obtain ⟨rfl, rfl⟩ := hpe
+          exact ⟨pts, hop, by rw [← hpt]; exact hp, hd'⟩
+      · have : (k' == k) = false := by simp [hk]
+        simp [this] at hm
+    | _ => simp at hm
+  · rintro ⟨pts, hop, hm, hd⟩
+    refine ⟨_, hop, ?_⟩
+    simp only [hd, Bool.not_false, Bool.and_true, beq_self_eq_true, if_true, List.mem_map, List.mem_filter,
+      beq_iff_eq]
+    exact ⟨(t, v), ⟨hm, rfl⟩, rfl⟩
+
+/-- **newest file wins, tombstoned ranges removed**: with range deletes -/
+theorem content_del (ops : List Op) (hv : ValidFrom [] ops) (k : Key) (t : Int) :
+    restAt (blocksFor (runsOf' ops) k) t = expectedAt ops k t := by
+  have hch : ∀ f, ChainOK (ptsOf f k ops) := fun f => by
+    have := valid_chain f k ops [] hv trivial
+    simpa using this
+  rw [blocksFor_readers, restAt_flatMap_readers ops hv k t]
+  unfold expectedAt
+  obtain ⟨n1, n2⟩ := newest_spec (candidates ops k t)
+  obtain ⟨l1, l2⟩ := lastHit_spec (fileHit ops k t) (fileIds ops) (fileIds_asc ops)
+  have hmem : ∀ f v, (f, v) ∈ candidates ops k t ↔ (f ∈ fileIds ops ∧ fileHit ops k t f = some v) := by
+    intro f v
+    have inv := rinv_reader ops hv f
+    rw [mem_candidates]
+    constructor
+    · rintro ⟨pts, hop, hm, hd⟩
+      refine ⟨mem_fileIds.mpr ⟨(valid_blk_facts ops [] hv f k pts hop).1, k, pts, hop⟩, ?_⟩
+      have hl : lastAt (ptsOf f k ops) t = some v := lastAt_of_mem (hch f) (mem_ptsOf.mpr hop) hm
+      have htime : t ∈ timesOf (fileBlocksL f ops) k := by
+        rw [mem_timesOf, getK_file]
+        exact ⟨pts, mem_ptsOf.mpr hop, (t, v), hm, rfl⟩
+      -- the key is in the index
+      have hkin : k ∈ (readerOf f ops).index.map (·.1) := by
+        rw [inv.keys]
+        have : getK (fileBlocksL f ops) k ≠ [] := by
+          rw [getK_file]; intro h0
+          have := mem_ptsOf.mpr hop; rw [h0] at this; simp at this
+        simp only [getK] at this
+        obtain ⟨x, hx⟩ := List.exists_mem_of_ne_nil _ this
+        obtain ⟨e, he, _⟩ := List.mem_flatMap.mp hx
+        have h1 := List.mem_filter.mp he
+        exact List.mem_map.mpr ⟨e, h1.1, by simpa using h1.2⟩
+      obtain ⟨st, hst⟩ := lookupSt_of_key hkin
+      have hag := delAgree ops hv f k st (lookupSt_mem hst) t htime
+      rw [hd] at hag
+      unfold fileHit
+      rw [hst]
+      cases st with
+      | none => simp [goneAt] at hag
+      | some tombs =>
+        simp only [goneAt] at hag
+        simp [hag, hl]
+    · rintro ⟨_, hh⟩
+      unfold fileHit at hh
+      cases hst : lookupSt (readerOf f ops) k with
+      | none => rw [hst] at hh; simp at hh
+      | some st =>
+        rw [hst] at hh
+        cases st with
+        | none => simp at hh
+        | some tombs =>
+          simp only at hh
+          by_cases hin : inTombs tombs t = true
+          · simp [hin] at hh
+          · have hin' : inTombs tombs t = false := by simpa using hin
+            simp only [hin', Bool.false_eq_true, if_false] at hh
+            obtain ⟨b, hb, hb'⟩ := lastAt_some_mem hh
+            have htime : t ∈ timesOf (fileBlocksL f ops) k := by
+              rw [mem_timesOf, getK_file]
+              exact ⟨b, hb, (t, v), hb', rfl⟩
+            have hag := delAgree ops hv f k (some tombs) (lookupSt_mem hst) t htime
+            simp only [goneAt, hin'] at hag
+            exact ⟨b, mem_ptsOf.mp hb, hb', hag.symm⟩
+  cases hn : newest (candidates ops k t) with
+  | none =>
+    have hC := n1.mp hn
+    have : lastHit (fileHit ops k t) (fileIds ops) = none := by
+      apply l1.mpr
+      intro f hf
+      cases hl : fileHit ops k t f with
+      | none => rfl
+      | some v =>
+        have := (hmem f v).mpr ⟨hf, hl⟩
+        rw [hC] at this; simp at this
+    rw [this]; rfl
+  | some c =>
+    obtain ⟨c1, c2⟩ := n2 c hn
+    obtain ⟨f, v⟩ := c
+    obtain ⟨hf, hl⟩ := (hmem f v).mp c1
+    cases hh : lastHit (fileHit ops k t) (fileIds ops) with
+    | none => have := (l1.mp hh) f hf; rw [hl] at this; cases this
+    | some w =>
+      obtain ⟨g, hg, hg1, hg2⟩ := l2 w hh
+      have hgc := (hmem g w).mpr ⟨hg, hg1⟩
+      have h1 : g ≤ f := c2 _ hgc
+      have h2 : ¬ g < f := by
+        intro hlt
+        have := hg2 f hf hlt
+        rw [hl] at this; cases this
+      have : g = f := by omega
+      subst this
+      rw [hl] at hg1
+      simp only [Option.some.injEq] at hg1
+      simp [hg1]
+
+theorem filesOK_del (ops : List Op) (hv : ValidFrom [] ops)
+    (hcap : ∀ k, (blocksOfKey ops k).length ≤ 20) : FilesOK (runsOf' ops) := by
+  have hch : ∀ f k, ChainOK (ptsOf f k ops) := fun f k => by
+    have := valid_chain f k ops [] hv trivial
+    simpa using this
+  have hlen : ∀ f k, (readerBlocks (readerOf f ops) k).length ≤ (ptsOf f k ops).length := by
+    intro f k
+    rw [readerBlocks_spec, (rinv_reader ops hv f).blocks, getK_file]
+    cases lookupSt (readerOf f ops) k with
+    | none => simp
+    | some st => cases st <;> simp
+  refine ⟨?_, ?_, ?_⟩
+  · intro fr hfr
+    unfold runsOf' at hfr
+    rw [readers_eq, List.map_map] at hfr
+    simp only [List.mem_map, Function.comp] at hfr
+    obtain ⟨f, _, rfl⟩ := hfr
+    have inv := rinv_reader ops hv f
+    have hok := bok_file ops hv f
+    unfold RFile.runs
+    rw [inv.blocks]
+    refine ⟨?_, ?_⟩
+    · apply List.Pairwise.filterMap _ _ hok.asc
+      intro a a' haa b hb b' hb'
+      obtain ⟨ka, bsa⟩ := a
+      obtain ⟨ka', bsa'⟩ := a'
+      simp only at hb hb'
+      have e1 : b.1 = ka := by
+        cases hfd : (readerOf f ops).index.find? (fun e => decide (e.1 = ka)) with
+        | none => rw [hfd] at hb; simp at hb
+        | some e =>
+          obtain ⟨_, st⟩ := e
+          rw [hfd] at hb
+          cases st with
+          | none => simp at hb
+          | some tombs => simp at hb; rw [← hb]
+      have e2 : b'.1 = ka' := by
+        cases hfd : (readerOf f ops).index.find? (fun e => decide (e.1 = ka')) with
+        | none => rw [hfd] at hb'; simp at hb'
+        | some e =>
+          obtain ⟨_, st⟩ := e
+          rw [hfd] at hb'
+          cases st with
+          | none => simp at hb'
+          | some tombs => simp at hb'; rw [← hb']
+      rw [e1, e2]; exact haa
+    · intro r hr
+      simp only [List.mem_filterMap] at hr
+      obtain ⟨⟨k, bs⟩, hkb, hrr⟩ := hr
+      simp only at hrr
+      cases hfd : (readerOf f ops).index.find? (fun e => decide (e.1 = k)) with
+      | none => rw [hfd] at hrr; simp at hrr
+      | some e =>
+        obtain ⟨_, st⟩ := e
+        rw [hfd] at hrr
+        cases st with
+        | none => simp at hrr
+        | some tombs =>
+          simp only [Option.some.injEq] at hrr
+          subst hrr
+          have hne := hok.ne _ hkb
+          refine ⟨?_, by simpa using hne⟩
+          obtain ⟨b, hb⟩ : ∃ b, b ∈ bs := by
+            cases h : bs with
+            | nil => exact absurd h hne
+            | cons x xs => exact ⟨x, by simp⟩
+          have hg := getK_of_mem hok.asc hkb
+          have hin : b ∈ ptsOf f k ops := by rw [← getK_file, hg]; exact hb
+          exact (valid_blk_facts ops [] hv f k b (mem_ptsOf.mp hin)).2
+  · intro k b hb
+    rw [blocksFor_readers] at hb
+    simp only [List.mem_flatMap] at hb
+    obtain ⟨f, _, hb⟩ := hb
+    rw [readerBlocks_spec, (rinv_reader ops hv f).blocks, getK_file] at hb
+    cases hst : lookupSt (readerOf f ops) k with
+    | none => rw [hst] at hb; simp at hb
+    | some st =>
+      rw [hst] at hb
+      cases st with
+      | none => simp at hb
+      | some tombs =>
+        simp only [List.mem_map] at hb
+        obtain ⟨pts, hpts, rfl⟩ := hb
+        obtain ⟨c1, c2, c3⟩ := chain_mem_facts _ (hch f k) pts hpts
+        exact fresh_mkBT tombs c1 c2 c3
+  · intro k
+    rw [blocksFor_readers]
+    refine Nat.le_trans ?_ (hcap k)
+    unfold blocksOfKey
+    generalize fileIds ops = ids
+    induction ids with
+    | nil => simp
+    | cons f fs ih =>
+      simp only [List.flatMap_cons, List.length_append]
+      have := hlen f k
+      omega
+
+/-- **a compaction of the case, with range deletes, judged by the statement checker** -/
+theorem modelCompact_ok' (ops : List Op) (hv : ValidFrom [] ops)
+    (hcap : ∀ k, (blocksOfKey ops k).length ≤ 20) (fast : Bool) (size : Nat) (hs : 0 < size)
+    (hsz : ∀ f k pts, Op.blk f k pts ∈ ops → pts.length ≤ size)
+    (files : List OutFile) (h : modelCompact ops fast size = Obs.out files) :
+    judge ops false size files = none := by
+  unfold modelCompact at h
+  cases hc : compactSeq ⟨size, fast⟩ ((readers ops).map RFile.runs) with
+  | error e => rw [hc] at h; cases h
+  | ok seq =>
+    rw [hc] at h
+    simp only [Obs.out.injEq] at h
+    subst h
+    have ro := compactSeq_spec ⟨size, fast⟩ hs (runsOf' ops) (filesOK_del ops hv hcap) seq hc
+    obtain ⟨sf1, sf2⟩ := splitFiles_spec limits (fun _ => 0) (seqLen seq) seq (by simp [seqLen])
+    apply judge_none ops false size _ sf2 (by rw [sf1]; exact ro.sorted)
+      (fun k => blocksFor (runsOf' ops) k) (fun k => restAt (blocksFor (runsOf' ops) k))
+    · intro k; rw [sf1]; exact ro.keys k
+    · intro k t
+      simp only [Bool.false_eq_true, if_false]
+      exact content_del ops hv k t
+    · intro k b0 hb0
+      rw [blocksFor_readers] at hb0
+      simp only [List.mem_flatMap] at hb0
+      obtain ⟨f, _, hb⟩ := hb0
+      rw [readerBlocks_spec, (rinv_reader ops hv f).blocks, getK_file] at hb
+      cases hst : lookupSt (readerOf f ops) k with
+      | none => rw [hst] at hb; simp at hb
+      | some st =>
+        rw [hst] at hb
+        cases st with
+        | none => simp at hb
+        | some tombs =>
+          simp only [List.mem_map] at hb
+          obtain ⟨pts, hpts, rfl⟩ := hb
+          exact hsz f k pts (mem_ptsOf.mp hpts)
 
 end Influx.Model.Compact
